@@ -244,7 +244,7 @@ class P(Prop):
         if st == "serial":
             for l, e, se in zip(case["loads"], obs["eff"], obs["stage_eff"]):
                 if l * 10 == int(l * 10):
-                    prod = float(np.prod(se))
+                    prod = min(1.0, max(0.01, float(np.prod(se))))     # the system's own efficiency is limited to [1 %, 100 %] too
                     if abs(e - prod) > 1e-9:
                         return f"serial system at load {float(l)}: efficiency {e}, product of the stage efficiencies at their own loads {prod}"
         if obs.get("series_input_unchanged") is False:
